@@ -93,6 +93,12 @@ func vpGsRecipients(flood bool) {
 			vpAssert(lp, "publishing to a non-joined topic refreshes its fanout timestamp")
 		}
 	}
+	if !w.joined && !local && !(flood && src == "self") {
+		if _, hasTopicPeers := ps.topics[vpT0]; hasTopicPeers {
+			lp, ok := gs.lastpub[vpT0]
+			vpAssert(ok && lp == w.now.UnixNano(), "every publication to a non-joined topic refreshes the fanout's last-published time (members are kept while the topic keeps being published to)")
+		}
+	}
 	vpCover(!w.joined && !hadFanout && eligible == 3 && !local, "fresh fanout with more eligible peers than D")
 	vpCover(w.joined && w.mesh[0] && unw[0] && src == "p1", "mesh member that announced IDONTWANT")
 }
